@@ -53,6 +53,8 @@ class Tiny:
                 return self.env[t]
             raise AnalysisError(f"tiny: reads {t}")
         if isinstance(e, ast.Subscript):
+            if norm.text(e) in self.env:
+                return self.env[norm.text(e)]
             b = self.ev(e.value)
             if isinstance(b, Buf) and isinstance(e.slice, ast.Slice) and e.slice.step is None:
                 lo = self.ev(e.slice.lower) if e.slice.lower is not None else None
